@@ -10,7 +10,7 @@ from vlib.dsl import *
 from vlib.build import Builder
 from vlib import designcheck as dc
 
-NA, NB = 8, 6  # number of connectable options for the bus port / the bundle port
+NA, NB = 9, 6  # number of connectable options for the bus port / the bundle port
 
 
 def _design(w, arr):
@@ -40,7 +40,8 @@ def _opt_a(c, w):
     if c == 4: return Cat((Slc(Sig("t"), 0, w - 1), Idx(Sig("s"), -1)))   # needs w >= 2
     if c == 5: return PRef("j", "a")
     if c == 6: return NC(1)
-    return NC(2, "ncx")
+    if c == 7: return NC(2, "ncx")
+    return BRef("b1", ("x",))   # a member of a bundle instance (a bundle reference as the source of the port)
 
 
 def _opt_b(c, w):
@@ -131,20 +132,20 @@ def _legal(c, port, w, arr):
 
 
 _ARGS = "o0: int, p0: int, c0: int, o1: int, p1: int, c1: int, o2: int, p2: int, c2: int, w: int, arr: bool"
-_PRE = ["0 <= o0 <= 2 or o0 == 5", "o0 != 5 or (p0 == 0 and c0 == 0)", "0 <= p0 <= 2", "0 <= c0 <= 7", "0 <= o1 <= 5", "0 <= p1 <= 2", "0 <= c1 <= 7", "0 <= o2 <= 5", "0 <= p2 <= 2", "0 <= c2 <= 7", "1 <= w <= 2", "o1 != 5 or (p1 == 0 and c1 == 0)", "o2 != 5 or (p2 == 0 and c2 == 0)"]
+_PRE = ["0 <= o0 <= 2 or o0 == 5", "o0 != 5 or (p0 == 0 and c0 == 0)", "0 <= p0 <= 2", "0 <= c0 <= 8", "0 <= o1 <= 5", "0 <= p1 <= 2", "0 <= c1 <= 8", "0 <= o2 <= 5", "0 <= p2 <= 2", "0 <= c2 <= 8", "1 <= w <= 2", "o1 != 5 or (p1 == 0 and c1 == 0)", "o2 != 5 or (p2 == 0 and c2 == 0)"]
 
 
 @harness("C04", args=_ARGS, pre=_PRE,
          tiers={"quick": {"timeout": 170, "pre": ["o0 == 1 or o0 == 5", "c2 == 0 or o2 == 5", "w == 2", "arr == False", "p2 <= 1"],
-                          "parts": [(f"p{p}_c{c}", f"o0 == 1 and p0 == {p} and c0 == {c}") for p in (0, 1) for c in range(8) if not (p >= 1 and c >= NB)] + [("ref", "o0 == 5")]},
-                "thorough": {"timeout": 600, "pre": ["c2 <= 1", "arr == False or (c0 <= 3 and c1 <= 3 and c2 <= 1)"], "parts": [(f"p{p}_c{c}_o{o}_q{q}", f"p0 == {p} and c0 == {c} and o1 == {o} and p1 == {q}") for p in (0, 1, 2) for c in range(8) for o in range(6) for q in (0, 1, 2)
+                          "parts": [(f"p{p}_c{c}", f"o0 == 1 and p0 == {p} and c0 == {c}") for p in (0, 1) for c in range(9) if not (p >= 1 and c >= NB)] + [("ref", "o0 == 5")]},
+                "thorough": {"timeout": 600, "pre": ["c2 <= 1", "arr == False or (c0 <= 3 and c1 <= 3 and c2 <= 1)"], "parts": [(f"p{p}_c{c}_o{o}_q{q}", f"p0 == {p} and c0 == {c} and o1 == {o} and p1 == {q}") for p in (0, 1, 2) for c in range(9) for o in range(6) for q in (0, 1, 2)
                                        if not (p >= 1 and c >= NB) and not (o == 5 and q != 0) and not (o in (3, 4) and q != p)]}},
          sample=(1, 0, 5, 1, 0, 1, 2, 0, 0, 2, False),
-         bounds="histories of 3 operations (+ completion) on the bus port and the two bundle ports (one bundle type: one object may be tied to both) of an Instance (and an InstanceArray with signal/slice/bundle connections); op in {call, setattr, connect, replace, disconnect, a third instance taking a reference to the edited port}; bus-port connectables: 2 signals, 2 bus halves, concatenation, port reference, unnamed / named no-connect; bundle-port connectables: internal bundle, bundle port, 2 anonymous bundles, port reference, reference into a nested bundle; w <= 2 (quick tier: w = 2, Instance only, first operation by assignment, third operation's connectable fixed, the second bundle port only in the second operation; thorough: all first operations, arrays, two third connectables)",
+         bounds="histories of 3 operations (+ completion) on the bus port and the two bundle ports (one bundle type: one object may be tied to both) of an Instance (and an InstanceArray with signal/slice/bundle connections); op in {call, setattr, connect, replace, disconnect, a third instance taking a reference to the edited port}; bus-port connectables: 2 signals, 2 bus halves, concatenation, port reference, unnamed / named no-connect, bundle member; bundle-port connectables: internal bundle, bundle port, 2 anonymous bundles, port reference, reference into a nested bundle; w <= 2 (quick tier: w = 2, Instance only, first operation by assignment, third operation's connectable fixed, the second bundle port only in the second operation; thorough: all first operations, arrays, two third connectables)",
          generalises="operation / port / connectable selectors (exhaustive path enumeration); width", outside="histories longer than 3; more than two ports; Pair histories")
 def histories(o0, p0, c0, o1, p1, c1, o2, p2, c2, w, arr):
     P = env.pick
-    ops = [(P(o0, 0, 5), P(p0, 0, 2), P(c0, 0, 7)), (P(o1, 0, 5), P(p1, 0, 2), P(c1, 0, 7)), (P(o2, 0, 5), P(p2, 0, 2), P(c2, 0, 7))]
+    ops = [(P(o0, 0, 5), P(p0, 0, 2), P(c0, 0, 8)), (P(o1, 0, 5), P(p1, 0, 2), P(c1, 0, 8)), (P(o2, 0, 5), P(p2, 0, 2), P(c2, 0, 8))]
     arr, w = bool(arr), P(w, 1, 2)
     with env.notrace():  # every input is a selector (or a width in {1,2}): solver-enumerated, each history runs concretely
         for op, port, c in ops:
